@@ -45,6 +45,9 @@ func c04Cases(seed int64, tier string) []core.Case {
 	cs = append(cs, core.MkCase("dirgrow-0", "dirgrow", seed, ext4Case{Cfg: Ext4Cfg{Size: 16 << 20}, Mode: "dirgrow", Steps: 60}))
 	cs = append(cs, core.MkCase("appendspan-0", "appendspan", seed, ext4Case{Cfg: Ext4Cfg{Size: 32 << 20, SPB: 2, BPG: 4096}, Mode: "appendspan", Steps: 330}))
 	cs = append(cs, core.MkCase("inodeedge-0", "inodeedge", seed, ext4Case{Cfg: Ext4Cfg{Size: 16 << 20}, Mode: "inodeedge"}))
+	for i, cfg := range []Ext4Cfg{{Size: 16 << 20}, {Size: 32 << 20, SPB: 8, Off: []string{"resize_inode"}, Start: 1 << 20}} {
+		cs = append(cs, core.MkCase(fmt.Sprintf("stalegap-%d", i), "stalegap", seed+int64(i), ext4Case{Cfg: cfg, Mode: "stalegap"}))
+	}
 	nf := 4
 	if tier == "thorough" {
 		nf = 40
